@@ -34,5 +34,7 @@ Next ==
             /\ UNCHANGED <<gens, cur>>
             /\ Chk(e.armed => e.received, "c19_armed_timer_never_delivered")
             /\ Chk(e.received => (e.rh = e.h /\ e.rv = e.v), "c19_trigger_carries_other_pair")
+       \* arming or stopping the timer is a total operation: a call that panics arms nothing and leaves the node without a timer
+       [] e.ev = "panic" -> UNCHANGED <<gens, cur>> /\ Chk(FALSE, "c19_timer_call_panicked")
        [] OTHER -> UNCHANGED <<gens, cur>>
 =============================================================================
